@@ -7,6 +7,7 @@
 #include <string.h>
 #include <dirent.h>
 #include <sys/wait.h>
+#include <time.h>
 
 typedef struct Src { char name[48]; char *text; bool multi; bool bad; bool example; bool rel; } Src;
 static Src srcs[160]; static int nsrcs;
@@ -204,7 +205,7 @@ static void compile_once(EPlan *P, Cfg *c, uint64_t seed, Outs *o) {
 }
 
 /* reference (configuration 0) cache, zygote side */
-typedef struct ERef { char key[64]; Outs o; bool have; char crash_kind[64], crash_site[128]; } ERef;
+typedef struct ERef { char key[64]; Outs o; bool have; bool slow; char crash_kind[64], crash_site[128]; } ERef;
 static ERef erefs[400]; static int nerefs;
 static ERef *eref_lookup(const char *key) { for (int i = 0; i < nerefs; i++) if (!strcmp(erefs[i].key, key)) return &erefs[i]; return NULL; }
 typedef struct RA { EPlan *P; } RA;
@@ -224,7 +225,11 @@ static void fam_prepare(uint64_t seed, const RunOpts *o) {
     if (eref_lookup(key) || nerefs == 400) return;
     ERef *r = &erefs[nerefs++]; memset(r, 0, sizeof *r); snprintf(r->key, sizeof r->key, "%s", key);
     RA ra = { &P }; Buf out = {0}, asan = {0}; int st = 0; char role[48];
+    struct timespec t0, t1; clock_gettime(CLOCK_MONOTONIC, &t0);
     fork_collect(eref_child, &ra, &out, &st, role, sizeof role, &asan);
+    clock_gettime(CLOCK_MONOTONIC, &t1);
+    /* compile-time shadow tests make a few examples take seconds per compile (nl_pi_calculator: 12 s); they are left out in the quick tier */
+    r->slow = strcmp(o->tier, "quick") == 0 && (t1.tv_sec - t0.tv_sec) * 1000 + (t1.tv_nsec - t0.tv_nsec) / 1000000 > 1500;
     if (!(WIFEXITED(st) && WEXITSTATUS(st) == 0)) asan_site(&asan, r->crash_kind, sizeof r->crash_kind, r->crash_site, sizeof r->crash_site);
     buf_free(&asan);
     if (WIFEXITED(st) && WEXITSTATUS(st) == 0 && out.len >= 16) {
@@ -246,6 +251,7 @@ static void fam_run(uint64_t seed, const RunOpts *o, Result *r) {
     plan_ready(r);
     char key[64]; snprintf(key, sizeof key, "%s/%d", P.prog, P.tool);
     ERef *ref = eref_lookup(key);
+    if (ref && ref->slow) { strcpy(r->verdict, "skip"); buf_printf(&r->detail, "source takes more than 1.5 s per compile (compile-time shadow tests); left to the thorough tier"); return; }
     if (ref && !ref->have && strstr(ref->crash_kind, "buffer-overflow")) {
         /* the compiler read or wrote outside one of its objects while compiling a well-formed input: what it emits then
          * depends on neighbouring memory, i.e. on the memory layout of that process */
